@@ -202,7 +202,7 @@ def putVerified (cfg : Cfg) (dist : Nat → Nat) (s : St) (k v : Nat) (rt : RTyp
   else
     let s1 := { s with cache := pushBack cfg.cacheSize c1 s.clock k v, clock := s.clock + 1 }
     match prune cfg dist s1 k with
-    | none => (s1, .maxRecords)
+    | none => ({ s1 with cache := erase k s1.cache }, .maxRecords)   -- a refused record leaves the cache again
     | some s2 =>
       ({ s2 with tasks := s2.tasks ++ [(s2.nextId, .write k v rt)], nextId := s2.nextId + 1 }, .ok)
 
